@@ -827,3 +827,216 @@ func c19VariadicArity(c *Ctx, r *Result) {
 	}
 	r.Floor("R19f", n, 1)
 }
+
+// ---- R01h: the scope walk is complete: the most specific definition decides -----------------------
+
+// RuleScope.IsAllowed descends the definition tree along the dotted path and lets the last flag it
+// meets decide. The answer is that of the most specific definition only if the descent is left for
+// one of two reasons: the path is exhausted, or the next step has no entry. A return before the
+// descent, or an exit of the loop for any other reason ("the root allows everything"), lets a
+// broader definition overrule a more specific one.
+func c01ScopeWalk(c *Ctx, r *Result) {
+	fn := c.Method("engine", "RuleScope", "IsAllowed")
+	if fn == nil {
+		r.Undecide("R01h: engine.RuleScope.IsAllowed not found")
+		return
+	}
+	key := c.FuncKey(fn)
+	var loop map[*ssa.BasicBlock]bool
+	allInstrs(fn, func(in ssa.Instruction) {
+		if ta, ok := in.(*ssa.TypeAssert); ok {
+			if _, isMap := ta.AssertedType.Underlying().(*types.Map); isMap {
+				if scc := sccOf(in.Block()); scc != nil {
+					loop = scc
+				}
+			}
+		}
+	})
+	if loop == nil {
+		r.Undecide("R01h: the descent loop of %s (a loop stepping into the sub-definitions) was not found", key)
+		return
+	}
+	var header *ssa.BasicBlock
+	for b := range loop {
+		for _, p := range b.Preds {
+			if !loop[p] && (header == nil || b.Index < header.Index) {
+				header = b
+			}
+		}
+	}
+	if header == nil {
+		r.Undecide("R01h: the descent loop of %s has no entry", key)
+		return
+	}
+	var bad []string
+	var badPos token.Pos
+	n := 0
+	// (1) no return before the descent
+	allInstrs(fn, func(in ssa.Instruction) {
+		ret, ok := in.(*ssa.Return)
+		if !ok || in.Block() == fn.Recover {
+			return
+		}
+		n++
+		if !header.Dominates(in.Block()) && !loop[in.Block()] {
+			bad = append(bad, "a return at "+c.Pos(ret.Pos())+" is reached without entering the descent")
+			if !badPos.IsValid() {
+				badPos = ret.Pos()
+			}
+		}
+	})
+	// (2) the descent is left only when the path is exhausted or a step has no entry
+	isLenCmp := func(v ssa.Value) bool {
+		bo, ok := v.(*ssa.BinOp)
+		if !ok {
+			return false
+		}
+		switch bo.Op {
+		case token.LSS, token.LEQ, token.GTR, token.GEQ, token.EQL, token.NEQ:
+		default:
+			return false
+		}
+		return termOf(bo.X).isLen() || termOf(bo.Y).isLen()
+	}
+	isStepMiss := func(v ssa.Value, succIdx int) bool {
+		neg := false
+		if u, ok := v.(*ssa.UnOp); ok && u.Op == token.NOT {
+			v, neg = u.X, true
+		}
+		e, ok := v.(*ssa.Extract)
+		if !ok || e.Index != 1 {
+			return false
+		}
+		switch t := e.Tuple.(type) {
+		case *ssa.Lookup:
+			if _, isConst := t.Index.(*ssa.Const); isConst {
+				return false // the lookup of the allow flag, not of a step
+			}
+		case *ssa.Next:
+		default:
+			return false
+		}
+		// left on the edge where ok is false
+		return (succIdx == 1) != neg
+	}
+	for b := range loop {
+		for i, s := range b.Succs {
+			if loop[s] {
+				continue
+			}
+			n++
+			ifi, ok := b.Instrs[len(b.Instrs)-1].(*ssa.If)
+			if ok && (isLenCmp(ifi.Cond) || isStepMiss(ifi.Cond, i)) {
+				continue
+			}
+			pos := token.NoPos
+			if ok {
+				pos = c.InstrPos(ifi)
+			}
+			bad = append(bad, "the descent is left at "+c.Pos(pos)+" for a reason other than 'path exhausted' or 'no entry for the next step'")
+			if !badPos.IsValid() {
+				badPos = pos
+			}
+		}
+	}
+	site := key + "#walk"
+	if len(bad) > 0 {
+		r.Instance("R01h", site, c.Pos(badPos), "finding", strings.Join(bad, "; "), true)
+		r.Report(Finding{Rule: "R01h", Site: site, Pos: c.Pos(badPos),
+			Msg: key + ": " + strings.Join(bad, "; ") + " — a broader definition then decides although a more specific one exists ({\"\": true, \"data.write\": false} allows data.write): rules whose scope is denied fire, and their suppression lists take effect"})
+	} else {
+		r.Instance("R01h", site, c.Pos(fn.Pos()), "ok", fmt.Sprintf("%d returns / loop exits: every return follows the descent, the descent ends only on an exhausted path or a missing step", n), true)
+	}
+	r.Floor("R01h", n, 2)
+}
+
+// ---- R02g: every item of a report owns its containers -------------------------------------------
+
+// addEventAndWait turns the monitor's errors into a list of items, one per failing event, each with
+// its own map of rule → error. A map that is allocated before the loop, filled inside it and stored
+// into every item is one map shared by all items: every event is then blamed for every sink, and
+// the entries of one event are overwritten by the next. Rule (package interpreter): a map or slice
+// that is stored as a value into a container built inside a loop, and is written inside that loop,
+// is allocated inside that loop.
+func c02ItemsOwnContainers(c *Ctx, r *Result) {
+	n := 0
+	for _, fn := range c.ModFuncs() {
+		if c.PkgOf(fn) != "interpreter" {
+			continue
+		}
+		key := c.FuncKey(fn)
+		ord := newOrdinals()
+		alloc := func(v ssa.Value) ssa.Instruction {
+			for d := 0; d < 4 && v != nil; d++ {
+				switch x := v.(type) {
+				case *ssa.MakeInterface:
+					v = x.X
+				case *ssa.ChangeType:
+					v = x.X
+				case *ssa.MakeMap:
+					return x
+				case *ssa.MakeSlice:
+					return x
+				default:
+					return nil
+				}
+			}
+			return nil
+		}
+		allInstrs(fn, func(in ssa.Instruction) {
+			var stored ssa.Value
+			switch x := in.(type) {
+			case *ssa.MapUpdate:
+				stored = x.Value
+			case *ssa.Store:
+				if _, isElem := x.Addr.(*ssa.IndexAddr); isElem {
+					stored = x.Val
+				}
+			}
+			if stored == nil {
+				return
+			}
+			a := alloc(stored)
+			if a == nil {
+				return
+			}
+			loop := sccOf(in.Block())
+			if loop == nil {
+				return
+			}
+			n++
+			site := ord.key(key, "item-container", accessPath(stored))
+			pos := c.Pos(c.InstrPos(in))
+			if loop[a.Block()] {
+				r.Instance("R02g", site, pos, "ok", "the container stored into the item is allocated in the same loop (one per iteration)", true)
+				return
+			}
+			written := false
+			av := a.(ssa.Value)
+			for _, ref := range *av.Referrers() {
+				switch y := ref.(type) {
+				case *ssa.MapUpdate:
+					if y.Map == av && loop[y.Block()] {
+						written = true
+					}
+				case *ssa.IndexAddr:
+					if loop[y.Block()] {
+						for _, r2 := range *y.Referrers() {
+							if _, isSt := r2.(*ssa.Store); isSt {
+								written = true
+							}
+						}
+					}
+				}
+			}
+			if !written {
+				r.Instance("R02g", site, pos, "ok", "allocated before the loop but not written in it (a shared constant)", true)
+				return
+			}
+			r.Instance("R02g", site, pos, "finding", "one container shared by the items of all iterations", true)
+			r.Report(Finding{Rule: "R02g", Site: site, Pos: pos,
+				Msg: fmt.Sprintf("%s: the container stored into each item of the loop (%s) is allocated once before the loop and filled inside it: all items share it — in the error report of addEventAndWait every failing event is blamed for the sinks of all events, and the error recorded for one event is overwritten by the next", key, c.Pos(c.InstrPos(a)))})
+		})
+	}
+	r.Floor("R02g", n, 1)
+}
